@@ -127,6 +127,20 @@ func HandleWireFormat(handle func(*dns.Msg) *dns.Msg) http.HandlerFunc {
 	}
 }
 
+// wireSpelling returns name as the wire decoder spells it.
+func wireSpelling(name string) (string, bool) {
+	buf := make([]byte, 256)
+	off, err := dns.PackDomainName(name, buf, 0, nil, false)
+	if err != nil {
+		return "", false
+	}
+	spelled, _, err := dns.UnpackDomainName(buf[:off], 0)
+	if err != nil {
+		return "", false
+	}
+	return spelled, true
+}
+
 // HandleJSON handle json format.
 func HandleJSON(handle func(*dns.Msg) *dns.Msg) http.HandlerFunc {
 	return func(w http.ResponseWriter, r *http.Request) {
@@ -138,11 +152,24 @@ func HandleJSON(handle func(*dns.Msg) *dns.Msg) http.HandlerFunc {
 
 		query := r.URL.Query()
 		name := query.Get("name")
+		var ok bool
 		if name == "" {
 			writeHTTPError(w, http.StatusBadRequest)
 			return
 		}
 		name = dns.Fqdn(name)
+		// The name is presentation text typed by the client. Everything
+		// behind this point keys and compares names in the spelling the wire
+		// decoder produces: a raw octet above 0x7F, or an escape that need
+		// not be one ("\\097" for "a"), named the same owner under another
+		// string — a second cache entry for one question, and, where names
+		// are canonicalised as text, two different owners collapsing into
+		// one failure or subtree-cut record. One round trip through the wire
+		// form gives the decoder's spelling and refuses what is not a name.
+		if name, ok = wireSpelling(name); !ok {
+			writeHTTPError(w, http.StatusBadRequest)
+			return
+		}
 
 		qtype := ParseQTYPE(query.Get("type"))
 		if qtype == dns.TypeNone {
